@@ -17,6 +17,11 @@ def _klong_true(q, backend):
     return not ((backend.is_number(q) and q == 0) or is_empty(q))
 
 
+def _count_is_zero(a):
+    """The iteration count has reached zero (the count may be a computed integer, i.e. a numpy scalar)."""
+    return not is_iterable(a) and bool(a == 0)
+
+
 def eval_adverb_converge(f, a, op, backend):
     """
         f:~a                                                  [Converge]
@@ -230,7 +235,7 @@ def eval_dyad_adverb_iterate(f, a, b):
         Example: 3{1,x}:*[]  -->  [1 1 1]
 
     """
-    while not safe_eq(a, 0):
+    while not _count_is_zero(a):
         b = f(b)
         a = a - 1
     return b
@@ -437,10 +442,10 @@ def eval_adverb_scan_iterating(f, a, b, backend):
         Example: 3{1,x}\*[]  -->  [[] [1] [1 1] [1 1 1]]
 
     """
-    if safe_eq(a,0):
+    if _count_is_zero(a):
         return b
     r = [b]
-    while not safe_eq(a, 0):
+    while not _count_is_zero(a):
         b = f(b)
         r.append(b)
         a = a - 1
